@@ -5,7 +5,7 @@
    Ok | Raise SSHExc | Raise PasswordRequired | Raise other.  base64, UTF-8 decoding, bcrypt, the ciphers,
    DER loading, RSA number validation, EC derivation and Ed25519 key derivation are oracles (Section
    variables).  Text lines are lists of code points.  Definitions only. *)
-From PV Require Import Bytes C39.
+From PV Require Import Bytes C39 C37_gen.
 Open Scope Z_scope.
 
 (* ---- characters ---------------------------------------------------------------------------------------- *)
@@ -35,11 +35,11 @@ Inductive tag := TRSA | TEC | TOPENSSH.
 Definition tag_eqb (a b : tag) : bool :=
   match a, b with TRSA, TRSA | TEC, TEC | TOPENSSH, TOPENSSH => true | _, _ => false end.
 Definition tag_str (t : tag) : list Z :=
-  match t with TRSA => [82;83;65] | TEC => [69;67] | TOPENSSH => [79;80;69;78;83;83;72] end.
-Definition s_dash5 : list Z := [45;45;45;45;45].
-Definition s_begin : list Z := [66;69;71;73;78;32].                       (* "BEGIN " *)
-Definition s_end : list Z := [69;78;68;32].                                (* "END " *)
-Definition s_privkey : list Z := [32;80;82;73;86;65;84;69;32;75;69;89].    (* " PRIVATE KEY" *)
+  match t with TRSA => gen_tag_0 | TEC => gen_tag_1 | TOPENSSH => gen_tag_2 end.   (* gen/c37.py *)
+Definition s_dash5 : list Z := repeat 45 gen_dash_count.
+Definition s_begin : list Z := gen_begin_kw.                       (* "BEGIN " *)
+Definition s_end : list Z := gen_end_kw.                                (* "END " *)
+Definition s_privkey : list Z := gen_privkey.    (* " PRIVATE KEY" *)
 
 (* ^-{5}<kw>(RSA|EC|OPENSSH) PRIVATE KEY-{5}\s*$ *)
 Definition match_tag (kw line : list Z) : option tag :=
@@ -92,8 +92,8 @@ Section Parsers.
     | [] => Raise SSHExc
     | p :: _ =>
         let len := Z.of_nat (length data) in
-        if (32 <=? p) && (p <? 127) then Ok data
-        else if (15 <? p) || (len <? p) then Raise SSHExc
+        if (gen_unpad_printable_lo <=? p) && (p <? gen_unpad_printable_hi) then Ok data
+        else if (gen_unpad_max <? p) || (len <? p) then Raise SSHExc
         else if negb (zlist_eqb (skipn (Z.to_nat (len - p)) data) (count_up 1 (Z.to_nat p))) then Raise SSHExc
         else Ok (if p =? 0 then [] else firstn (Z.to_nat (len - p)) data)      (* data[:-padding_length] *)
     end.
@@ -113,11 +113,11 @@ Section Parsers.
     bind (cs_s d) (fun '(s, r) => Ok (inflate_long s true, r)).
 
   (* ---- _read_private_key_openssh ---- *)
-  Definition s_magic : list Z := [111;112;101;110;115;115;104;45;107;101;121;45;118;49;0].  (* openssh-key-v1\0 *)
-  Definition s_bcrypt : list Z := [98;99;114;121;112;116].
-  Definition s_none : list Z := [110;111;110;101].
-  Definition s_aes256_cbc : list Z := [97;101;115;50;53;54;45;99;98;99].
-  Definition s_aes256_ctr : list Z := [97;101;115;50;53;54;45;99;116;114].
+  Definition s_magic : list Z := gen_magic.  (* openssh-key-v1\0 *)
+  Definition s_bcrypt : list Z := gen_bcrypt.
+  Definition s_none : list Z := gen_none.
+  Definition s_aes256_cbc : list Z := gen_aes256_cbc.
+  Definition s_aes256_ctr : list Z := gen_aes256_ctr.
 
   Definition join (ls : list (list Z)) : list Z := concat ls.
 
@@ -183,12 +183,10 @@ Section Parsers.
     | (k', v) :: r => if zlist_eqb k k' then Some v else hget k r
     end.
 
-  Definition s_proc_type : list Z := [112;114;111;99;45;116;121;112;101].
-  Definition s_dek_info : list Z := [100;101;107;45;105;110;102;111].
-  Definition s_4enc : list Z := [52;44;69;78;67;82;89;80;84;69;68].            (* "4,ENCRYPTED" *)
-  Definition cipher_table : list (list Z) :=
-    [ [65;69;83;45;49;50;56;45;67;66;67]; [65;69;83;45;50;53;54;45;67;66;67];
-      [68;69;83;45;69;68;69;51;45;67;66;67] ].                                  (* AES-128-CBC AES-256-CBC DES-EDE3-CBC *)
+  Definition s_proc_type : list Z := gen_proc_type.
+  Definition s_dek_info : list Z := gen_dek_info.
+  Definition s_4enc : list Z := gen_encrypted.            (* "4,ENCRYPTED" *)
+  Definition cipher_table : list (list Z) := gen_pem_ciphers.   (* PKey._CIPHER_TABLE keys *)
 
   Definition slice {A} (a b : nat) (l : list A) : list A := firstn (b - a) (skipn a l).   (* l[a:b] *)
 
@@ -273,7 +271,7 @@ Section Parsers.
     end.
 
   (* ---- Ed25519Key._parse_signing_key_data (repaired) ---- *)
-  Definition s_ed25519 : list Z := [115;115;104;45;101;100;50;53;53;49;57].
+  Definition s_ed25519 : list Z := gen_ed25519_name.
 
   Definition m_text (buf : list Z) (pos : nat) : result (list Z * nat) :=
     let '(s, p) := get_string buf pos in
